@@ -900,6 +900,8 @@ def _reshape(a, shape):
                 raise OutOfReach("reshape: leftover factors")
             groups[-1 if nreq else 0].append((ai, k, f)) if nreq else None
     splits = _splits.pop(id(a), {})
+    # unit factors carry no information: drop them from groups that also hold a non-unit factor
+    groups = [([x for x in g if not is_unit(x[2])] or g[:1]) for g in groups]
     new_dims = [mkprod([f for _, _, f in g]) if g else Atom(1) for g in groups]
     src = a
     old_factor_lists = [factors(d) for d in a.dims]
@@ -1730,7 +1732,18 @@ def compare(code, spec, what="result", hyps=()):
             if isinstance(tc, SumExpr) or isinstance(ts, SumExpr):
                 st, detail, m = sum_equal(tc, ts)
             else:
-                st, m = sym.refute_or_prove(t_eq(tc, ts))
+                goal = t_eq(tc, ts)
+                natoms = len(sym._cond_atoms(goal)) if is_z3(goal) else 0
+                if natoms >= 6:
+                    st, m = sym.prove_by_cases(goal)          # case analysis on the ite conditions
+                    if st == "unknown":
+                        st, m = sym.refute_or_prove(goal)
+                else:
+                    st, m = sym.refute_or_prove(goal, rlimit=sym.RLIMIT // 20)
+                    if st == "unknown":
+                        st, m = sym.prove_by_cases(goal)
+                        if st == "unknown":
+                            st, m = sym.refute_or_prove(goal)
                 detail = f"code={_short(tc)} spec={_short(ts)}"
             n += 1
             if st != "proved":
